@@ -830,8 +830,11 @@ def run_impl(case: dict) -> Tuple[List[str], List[dict]]:
         def randbits(k):  # every other draw is 0, the others are distinct
             draws[0] += 1
             return 0 if draws[0] % 2 == 1 else 30000 + draws[0]
-        # since the F-9 repair (b6300b7) a generated identifier is `10000 + secrets.randbelow(55536)`: it can no longer be 0; the stub
-        # keeps both entry points so the family still exercises the smallest and repeated identifiers
+        # since the F-9 repair (b6300b7) a generated identifier is `10000 + secrets.randbelow(55536)`: it can no longer be 0 (the
+        # F-34 situation is unreachable by generation).  What the family means now: every other ping draws the SMALLEST
+        # identifier 10000 again, i.e. identifiers are REUSED across pings of one host and of different hosts — the model (fresh
+        # identifier per ping) only agrees while ICMP.ping clears `request_replies[identifier]` after reading it (checked by
+        # mutation: without the `pop`, 5 violations, all in this family)
         _icmp_mod.secrets = types.SimpleNamespace(randbits=randbits, randbelow=lambda n: randbits(16) % n)
     try:
         try:
